@@ -513,8 +513,11 @@ class C05(QueryFamily):
             return gen_query.gen_case_forall(rng, tier)
         if r < 0.8:
             return gen_query.gen_case_sub(rng, tier)
-        if r < 0.92:
+        if r < 0.84:
             return gen_query.gen_case_flat(rng, tier)
+        if r < 0.93:
+            # the flattened expression used by a disjunction only: the comparator's cache must be keyed per ELEMENT
+            return gen_query.gen_case_flat(rng, tier, cond_only=True)
         return gen_query.gen_case_concat(rng, tier)
 
     def nontrivial(self, case, io):
